@@ -127,7 +127,10 @@ func extendMacroEnv(macro *object.Macro, args []object.Quote) *State {
 	extended := object.NewEnclosedEnvironment(macro.Env)
 
 	for paramIdx, param := range macro.Parameters {
-		extended.Set(param.Value().Literal(), args[paramIdx])
+		// Parameters are always new bindings of the macro's own environment (like function parameters):
+		// Set() would follow a same-named entry of the macro store and overwrite that macro with the
+		// argument, and refuses names of extension functions.
+		extended.SetNoChecks(param.Value().Literal(), args[paramIdx], true)
 	}
 
 	return &State{env: extended}
